@@ -46,20 +46,54 @@ def gen_cases(rng, tier):
         cases.append({'id': 'c08-evict-%d' % i, 'cfg': cfg, 'hist': h, 'sub': 'ksim' if ks else 'lsim', 'settled': True,
                       'tags': {'mode': 'evicted-in-group'}})
     # a cancellable macro with press/release action items (mouse buttons, unmod keys) cancelled at every millisecond of its run
-    for i in range(14 if tier == 'quick' else 300):
-        body = rng.choice(['mlft', 'x mlft y', '(unmod z) 3 mrgt', 'mlft mrgt', 'b (unmod a) n', 'mmid 2 mmid', 'x (unshift c) y'])
+    TAILED = ['(unicode r) (unicode s) (unicode t) x y z', 'mlft 3 b z', 'x (unmod a) 2 (unicode r) z', '(on-press tap-vkey vv) x z']
+    fixed = [(b, v) for b in TAILED for v in ('macro-cancel-on-press', 'macro-release-cancel-and-cancel-on-press')]
+    for i in range(len(fixed) + (8 if tier == 'quick' else 300)):
+        body = rng.choice(['mlft', 'x mlft y', '(unmod z) 3 mrgt', 'mlft mrgt', 'b (unmod a) n', 'mmid 2 mmid', 'x (unshift c) y',
+                           '(unicode r) (unicode s) (unicode t) x y z', 'mlft 3 b z', 'x (unmod a) 2 (unicode r) z', '(on-press tap-vkey vv) x z'])
         variant = rng.choice(['macro-cancel-on-press', 'macro-release-cancel-and-cancel-on-press', 'macro-repeat-cancel-on-press',
                               'macro-cancel-on-press', 'macro-release-cancel', 'macro-repeat-release-cancel'])
-        cfg = '(defsrc a s d)\n(deflayer l0 (%s %s) k l)' % (variant, body)
-        by_press = 'cancel-on-press' in variant and rng.random() < 0.8
-        for off in range(0, 11):        # every millisecond of the macro's run
+        if i < len(fixed):
+            body, variant = fixed[i]       # every tailed body under both cancel-on-press forms, always
+        cfg = '(defsrc a s d)\n(deflayer l0 (%s %s) k l)\n(defvirtualkeys vv n)' % (variant, body)
+        by_press = 'cancel-on-press' in variant and (i < len(fixed) or rng.random() < 0.8)
+        last_key = body.split()[-1]
+        # the same macro left alone: when does its last key go down?  (a key pressed before that must keep it from being played)
+        cases.append({'id': 'c08-cwin-%d-base' % i, 'cfg': cfg, 'hist': ['d30', 't60', 'u30', 't300', 'q'], 'sub': 'ksim',
+                      'tags': {'mode': 'cancel-baseline'}})
+        for off in range(0, 15):        # every millisecond of the macro's run
             if by_press:
                 h = ['d30', 't%d' % off, 'd31', 't3', 'u31', 't2', 'u30']
             else:
                 h = ['d30', 't%d' % off, 'u30']
             h += ['t300', 'q']
             cases.append({'id': 'c08-cwin-%d-%d' % (i, off), 'cfg': cfg, 'hist': h, 'sub': 'ksim', 'settled': True,
+                          'cancel': {'base': 'c08-cwin-%d-base' % i, 'off': off, 'last_key': last_key, 'repeat': 'repeat' in variant} if by_press else None,
                           'tags': {'mode': 'cancel-with-action-items', 'offset': off}})
+    # a repeating macro restarts only while its key is held - whoever holds it: a physical key, or a virtual key switched on and off
+    # by press/release, toggle or from another macro
+    for i in range(40 if tier == 'quick' else 600):
+        variant = rng.choice(['macro-repeat', 'macro-repeat', 'macro-repeat-release-cancel', 'macro-repeat-cancel-on-press'])
+        body = rng.choice(['x 20', 'x y 10', 'S-(x 5) 20', 'x'])
+        how = rng.choice(['toggle', 'toggle', 'press-release', 'physical'])
+        if how == 'physical':
+            cfg = '(defsrc a s d)\n(deflayer l0 (%s %s) k l)' % (variant, body)
+            on, off = ['d30'], ['u30']
+        else:
+            acts = {'toggle': ['(on-press toggle-vkey v0)', '(on-press toggle-vkey v0)'],
+                    'press-release': ['(on-press press-vkey v0)', '(on-press release-vkey v0)']}[how]
+            cfg = '(defsrc a s d)\n(deflayer l0 %s %s l)\n(defvirtualkeys v0 (%s %s))' % (acts[0], acts[1], variant, body)
+            on, off = ['d30', 't2', 'u30'], ['d31', 't2', 'u31']
+        h = ['t3']
+        now = 3
+        for _ in range(rng.randint(1, 2)):
+            g1, g2 = rng.choice([30, 90, 200]), rng.choice([100, 250])
+            h += on + ['t%d' % g1] + off + ['t%d' % g2]
+            now += g1 + g2 + (4 if how != 'physical' else 0)
+        quiet_from = now - g2 + 60      # one iteration of the longest body (< 60 ticks) may still finish after the key went up
+        h += ['t400', 'q']
+        cases.append({'id': 'c08-rep-%d' % i, 'cfg': cfg, 'hist': h, 'sub': 'ksim', 'settled': True, 'quiet_from': quiet_from,
+                      'tags': {'mode': 'repeat-while-held', 'held_by': how}})
     # kanata-level cancel paths (release-cancel, cancel-on-press and their window, repeat variants), macros started
     # without a physical press (virtual key tapped on release, hold action of a tap-hold)
     for i in range(160 if tier == 'quick' else 4000):
@@ -108,6 +142,31 @@ def gen_cases(rng, tier):
     return cases
 
 
+def post(all_results, run_impl, rng, tier, stats):
+    """cancel-on-press: another key pressed while the macro is running cancels it - the steps that had not been reached do not play"""
+    import gen
+    by = {c['id']: it for c, it, mt in all_results}
+    out = []
+    n = 0
+    for c, it, mt in all_results:
+        cc = c.get('cancel')
+        if not cc or not it or cc['last_key'] not in gen.KEYCODES or cc['repeat']:
+            continue
+        code = gen.KEYCODES[cc['last_key']]
+        base = by.get(cc['base']) or []
+        t_last = [int(l.split(' ')[0][1:].rstrip('+')) for l in base if l.startswith('@') and ('d%d' % code) in l.split(' ')[1:]]
+        if not t_last:
+            continue
+        n += 1
+        # the cancelling press arrives at input time `off` and is handled in the following tick
+        # (a key pressed in the first millisecond or two arrives before the macro's own press has been dequeued: not yet running)
+        if cc['off'] >= 2 and cc['off'] + 2 < t_last[0] and any(l.startswith('@') and ('d%d' % code) in l.split(' ')[1:] for l in it):
+            out.append((c, it, mt, 'a key pressed %d ms after the macro started (its last key would go down at tick %d) did not cancel it: '
+                                   'the last key %s was still played' % (cc['off'], t_last[0], cc['last_key'])))
+    stats['cancel_window_judged'] = n
+    return out
+
+
 def oracle(c, it):
     """when the macro has finished or was cancelled and every physical key is up, every key and button it pressed is released"""
     if not c.get('settled') or not it or it[0].startswith('PARSE-') or any(l.startswith(('PANIC', 'ABORT', 'HANG')) for l in it):
@@ -138,11 +197,16 @@ def oracle(c, it):
                         btn.remove(ev[2])
     if down or btn:
         return 'macro finished / cancelled and every physical key up, yet keys %s buttons %s stay pressed at the OS' % (down, btn)
+    if 'quiet_from' in c:
+        late = [l for l in it if l.startswith('@') and int(l.split(' ')[0][1:].rstrip('+')) > c['quiet_from']]
+        if late:
+            return 'the repeating macro still produces output after its key was let go (tick %d on): %s' % (c['quiet_from'], late[0][:60])
     return None
 
 
 SPEC = {
     'oracle': oracle,
+    'post': post,
     'id': 'C08', 'sub': 'lsim', 'gen_cases': gen_cases, 'nontrivial': trace_has_output,
     'rule': 'random macro bodies (keys, delays, modifier-prefixed groups, nested groups) in every macro variant x histories activating them once, repeatedly, overlapping, >4 concurrently (incl. eviction inside held groups), cancellation of macros with press/release action items at every millisecond' + '; non-trivial = distinct (config, trace) with output',
     'explanation': 'theorems: delay read/countdown, press/release steps, one step per tick, cancel paths clear every macro-held key, repeat only while held',
